@@ -335,6 +335,17 @@ func (fr *Frame) exec(ins ssa.Instruction, st *State) {
 	}
 }
 
+var snapTab = map[*Frame]map[ssa.Value]*LVal{}
+
+func (fr *Frame) snaps() map[ssa.Value]*LVal {
+	m := snapTab[fr]
+	if m == nil {
+		m = map[ssa.Value]*LVal{}
+		snapTab[fr] = m
+	}
+	return m
+}
+
 var closureTab = map[*Frame]map[ssa.Value]*ssa.MakeClosure{}
 
 func (fr *Frame) closures() map[ssa.Value]*ssa.MakeClosure {
@@ -900,8 +911,15 @@ func (fr *Frame) execSlice(ins *ssa.Slice, st *State) {
 		}
 		vc.oblige("slice", fr.autoTags(), fr.curReach, and(vc.ile(vc.ilit(0), lo), vc.ile(lo, hi), vc.ile(hi, lim), vc.ile(lim, n)), "slice bounds of array", ins.Pos(), nil)
 		if len(base.Path) != 0 || base.Ref == "" || !strings.HasPrefix(base.Comp, "Arr!") {
-			vc.unsupportedf("slicing an array that is not a separate heap object (%s) at %s", ins.X.Name(), vc.posOf(ins.Pos()))
-			fr.bindFresh(ins)
+			// an array embedded in a struct or a global: the slice refers to a snapshot object holding
+			// the array's current value; copy() into such a slice is written back (see execCopy); any
+			// other write through it is outside the subset.
+			r := vc.newRef(st, fr.curReach)
+			comp := vc.arrComp(at.Elem())
+			cur := vc.loadL(base, st)
+			vc.set(st, comp, fmt.Sprintf("(store %s %s %s)", vc.get(st, comp), r, cur.S))
+			fr.bind(ins, vc.mkSlice(r, lo, vc.isub(hi, lo), vc.isub(lim, lo)))
+			fr.snaps()[ins] = base
 			return
 		}
 		fr.bind(ins, vc.mkSlice(base.Ref, lo, vc.isub(hi, lo), vc.isub(lim, lo)))
